@@ -201,6 +201,7 @@ func (cc *checkCtx) report() int {
 		}
 	}
 	exit := 0
+	var replayStart time.Time
 	known := []string{}
 	violations := 0
 	os.MkdirAll(filepath.Join(verif, "replay"), 0o755)
@@ -222,7 +223,14 @@ func (cc *checkCtx) report() int {
 		}
 		violations++
 		exit = 1
-		if violations > 6 {
+		maxReplays, replayBudget := 3, 150*time.Second
+		if cc.tier == "thorough" {
+			maxReplays, replayBudget = 8, 900*time.Second
+		}
+		if replayStart.IsZero() {
+			replayStart = time.Now()
+		}
+		if violations > maxReplays || time.Since(replayStart) > replayBudget {
 			// replay budget: further violations are reported without a model search
 			fmt.Printf("VIOLATION property=%s replay=%s obligation=%q result=%s no-failing-input-found\n", cc.prop, filepath.Join(verif, "replay", "budget-exceeded.json"), o.Name, o.Result)
 			continue
